@@ -1,0 +1,18 @@
+//go:build verif
+
+package mavl
+
+// Verification hook (add-only): empty the process-global node caches without
+// re-allocating the 500000-entry map that ReleaseGlobalMem + InitGlobalMem would create.
+
+// VerifClearGlobalMem removes every entry of memTree and tkCloseCache, if they exist.
+func VerifClearGlobalMem() {
+	if tm, ok := memTree.(*TreeMap); ok && tm != nil {
+		tm.lock.Lock()
+		tm.mpCache = make(map[interface{}]interface{})
+		tm.lock.Unlock()
+	}
+	if ta, ok := tkCloseCache.(*TreeARC); ok && ta != nil {
+		ta.arcCache.Purge()
+	}
+}
